@@ -8,7 +8,7 @@ Verdict logic (DESIGN.md §2.4):
   KNOWN-FINDING and do not count.  Infrastructure errors -> exit 2.
 """
 from __future__ import annotations
-import collections, importlib, json, os, random, sys, time, traceback
+import collections, importlib, json, os, random, signal, sys, time, traceback
 from pathlib import Path
 sys.path.insert(0, str(Path(__file__).resolve().parent))
 import common
@@ -39,10 +39,17 @@ class Ctx:
 
     def count(self, key, n=1):
         self.dist[key] += n
+        common.alive()
+
+    def current(self, replay):
+        """The step about to be executed on the real code (named in the replay if that step never returns)."""
+        common.CURRENT = replay
+        common.alive()
 
     def case(self, signature=None, sample=None):
         """One evaluated case; `signature` identifies it for the distinct-nontrivial count (None = trivial)."""
         self.evaluations += 1
+        common.alive()
         if signature is not None:
             self.nontrivial.add(signature if isinstance(signature, (str, int)) else repr(signature))
         if sample is not None and len(self.samples) < 6:
@@ -58,6 +65,39 @@ class Ctx:
 
     def proof_break(self, kind, detail):
         self.proof_breaks.append({'kind': kind, 'detail': detail})
+
+
+def watchdog(stall):
+    """No sign of life from the harness for `stall` seconds while the real code runs -> common.Hang in the main thread."""
+    def handler(signum, frame):
+        if common.IN_DRIVER:
+            common.alive()
+        elif time.time() - common.PROGRESS > stall:
+            raise common.Hang()
+    signal.signal(signal.SIGALRM, handler)
+    signal.setitimer(signal.ITIMER_REAL, 10, 10)
+    common.alive()
+
+
+def watchdog_off():
+    signal.setitimer(signal.ITIMER_REAL, 0)
+
+
+def guarded(ctx, prop, stall, fn, *args):
+    """Runs a phase under the watchdog; a step of the real code that does not return is a failure of that step."""
+    watchdog(stall)
+    try:
+        return fn(*args)
+    except common.Hang:
+        cur = common.CURRENT
+        what = f'the implementation made no progress for {stall} s (a call that does not return, or that grows without bound)'
+        if cur is not None:
+            ctx.oracle_fail(f'{prop}:hang', what + ' on the recorded step', dict(cur, hang=True) if isinstance(cur, dict) else {'step': cur, 'hang': True})
+        else:
+            ctx.proof_break('hang', what + '; the harness could not name the step')
+    finally:
+        watchdog_off()
+        common.CURRENT = None
 
 
 def write_replay(ctx, n, body):
@@ -77,7 +117,14 @@ def main(argv):
     if argv[2] == '--replay':
         ctx = Ctx(prop, 'quick', seed)
         data = json.loads(Path(argv[3]).read_text())
-        ok = mod.replay(ctx, data)
+        watchdog(120)
+        try:
+            ok = mod.replay(ctx, data)
+        except common.Hang:
+            print('replay: the implementation did not return within 120 s')
+            ok = False
+        finally:
+            watchdog_off()
         if ok:
             print(f'replay: property {prop} holds on this input now')
             return 0
@@ -148,7 +195,8 @@ def main(argv):
         # 4-5: correspondence and oracle on the real code
         driver_ok = not any(b['kind'] == 'build' and any(str(f).startswith('Driver') or str(f).startswith('Autobean.Model') for f in b['detail']['failed_modules']) for b in ctx.proof_breaks)
         ctx.extra['model_available'] = driver_ok
-        mod.run(ctx)
+        stall = 600 if ctx.thorough else 240
+        guarded(ctx, prop, stall, mod.run, ctx)
         violations = []
         known = [k for k in common.load_known() if k['property'] == prop and k['status'] == 'finding']
         known_hit = {}
@@ -167,7 +215,7 @@ def main(argv):
             before = len(ctx.oracle_fails)
             hints = {'proof_breaks': ctx.proof_breaks, 'divergences': ctx.divergences}
             if hasattr(mod, 'search'):
-                mod.search(ctx, hints)
+                guarded(ctx, prop, stall, mod.search, ctx, hints)
             triage(ctx.oracle_fails[before:])
         lines = []
         n = 0
